@@ -67,7 +67,9 @@ impl Default for SplineOpts {
 
 /// typical derivative magnitudes for boundary values: (|y|/h, |y|/h^2)
 pub fn deriv_scales<T: Flt>(x: &[T], data: &ArrayD<T>) -> (f64, f64) {
-    let ymax = data.iter().fold(0.0f64, |m, v| m.max(v.f().abs())).max(1e-300);
+    let ymax = data.iter().fold(0.0f64, |m, v| m.max(v.f().abs()));
+    // all-zero (or denormally small) data: use unit scale so that derivative values stay ordinary
+    let ymax = if ymax < 1e-30 { 1.0 } else { ymax };
     let span = (x[x.len() - 1].f() - x[0].f()).abs();
     let h = span / (x.len() - 1).max(1) as f64;
     (ymax / h, ymax / (h * h))
